@@ -15,6 +15,7 @@ F = CFGF
 
 SUB2 = [Opt('int', b'z', 0, 1), Opt('strl', b'w', 0, None)]
 SUB = [Opt('int', b'a', 0, 1), Opt('intl', b'l', 0, b'{5}'), Opt('sec', b'in', F['MULTI'] | F['TITLE'], None, SUB2),
+       Opt('sec', b'pl', 0, None, SUB2 + [Opt('sec', b'pp', 0, None, SUB2)]),      # plain sections created at init, two levels down
        Opt('func', b'g', func='user:1')]
 SCHEMA = [Opt('int', b'i', 0, 7), Opt('str', b's', 0, b'd'), Opt('intl', b'il', 0, b'{1,2}'), Opt('sec', b'sec', 0, None, SUB),
           Opt('sec', b'm', F['MULTI'], None, SUB), Opt('bool', b'b', 0, 0), Opt('func', b'fn', func='user:0'),
@@ -135,7 +136,7 @@ def generate(rng, tier):
             mod = render(items, k, u)
             ntok = len(re.findall(rb'\S+', u))
             n += 1
-            yield scenario('u%d' % n, base, mod, F['IGNORE_UNKNOWN'], 'ignore/boundary', ntok)
+            yield scenario('u%d' % n, base, mod, F['IGNORE_UNKNOWN'] | (F['COMMENTS'] if n % 3 == 0 else 0), 'ignore/boundary', ntok)
             if k % 3 == 0 and not inkv[k]:      # inside a free-form section `unk = v` is a key, not an undeclared item
                 n += 1
                 yield scenario('n%d' % n, base, mod, 0, 'noflag', ntok)
@@ -151,14 +152,19 @@ def generate(rng, tier):
         for base, mk in ((b'i = 1\ns = "x"', lambda u: b'i = 1\n' + u + b'\ns = "x"'), (b'sec { a = 2 l = {3} }', lambda u: b'sec { a = 2\n' + u + b'\nl = {3} }'),
                          (b'b = true', lambda u: u + b'\nb = true'), (b'b = true', lambda u: b'b = true\n' + u),
                          (b'fn(z)\nsec { g(w) }', lambda u: u + b'\nfn(z)\nsec { ' + u + b' g(w) }'),
+                         (b'sec { pl { z = 2 pp { z = 3 } } }', lambda u: b'sec { pl { z = 2\n' + u + b'\npp { ' + u + b'\nz = 3 } } }'),
+                         (b'm { pl { } }', lambda u: b'm { pl { ' + u + b' } }'),
                          (b'old = 3\ni = 2', lambda u: b'old = 3\n' + u + b'\ni = 2'), (b'gone = {4}', lambda u: b'gone = {4}\n' + u),
                          (b'kv { k1 = v lvl = 4 }', lambda u: b'kv { k1 = v\n' + u + b'\nlvl = 4 }')):
             n += 1
             yield scenario('s%d' % n, base, mk(s), F['IGNORE_UNKNOWN'], 'ignore/shape', 3 if len(s) < 1000 else 10 ** 4)
+            if len(s) < 1000 and n % 2 == 0:
+                n += 1
+                yield scenario('s%d' % n, base, mk(s.replace(b'{ ', b'{ # in\n', 1).replace(b'(', b'( /* in */ ', 1).replace(b'= ', b'= // in\n', 1)), F['IGNORE_UNKNOWN'] | F['COMMENTS'], 'ignore/shape+comments', 3)
 
 
 def nontrivial(scn, il):
-    return scn.meta['ntok'] >= 3
+    return scn.meta.get('ntok', 3) >= 3
 
 
 def dg(l):
@@ -180,7 +186,10 @@ def oracle(scn, il):
     out = []
     if 'rc=0 ' not in base:
         return []          # the base text itself is not accepted: nothing to compare
-    if scn.meta['flags'] & F['IGNORE_UNKNOWN']:
+    flags = scn.meta.get('flags')
+    if flags is None:      # a replay file: the flags are in the init line
+        flags = int([l for l in scn.lines if l.startswith('init 1 ')][0].split()[3])
+    if flags & F['IGNORE_UNKNOWN']:
         if 'rc=0 ' not in mod:
             out.append(('not-skipped', '%s: text with an unknown item rejected: %s\n%s' % (scn.id, mod[:200], scn.lines[-3][:300])))
         elif dg(mod) != dg(base):
